@@ -14,7 +14,7 @@ func checkC02(c *Ctx, r *Report) {
 	r.Explanation = "W-SE: for every registered box type and every configuration of its discriminants, the symbolic number of bits EncodeSW writes on the decoded abstract structure equals 8*Size() as polynomials " +
 		"over the symbolic counts/lengths, and the header item carries Size() of the same box; T-WRAP: every Encode wrapper allocates exactly int(recv.Size()), encodes the same receiver into it, checks the error and writes sw.Bytes(); " +
 		"S-MEMBER: Size/Encode/EncodeSW of the composites (File, InitSegment, MediaSegment, Fragment) traverse the same members. " +
-		"L-MAKEAPPEND: no slice in package mp4 is made with a non-zero length and then only appended to (the decoded box would hold zero entries in front of the real ones, counted by Size() but not what the encoder writes); T-LIVE: Size() of every box type that holds children depends on the Children it holds now (no cached size); W-NARROW: in the functions reachable from the size methods no product of two non-constant values is computed in 32 bits or fewer and only then widened. Decides agreement of the size function with the encoder per configuration; does not decide irregular boxes, numeric loop bounds, or idempotence of encodes that mutate state."
+		"L-MAKEAPPEND: no slice in package mp4 is made with a non-zero length and then only appended to (the decoded box would hold zero entries in front of the real ones, counted by Size() but not what the encoder writes); O-CLEAN: a trial parser (bool result, run once per candidate on the same box: SencBox.parseAndFillSamples) resets every receiver field it grows with append on every path that may return false (leftovers are walked by Size()/EncodeSW); T-LIVE: Size() of every box type that holds children depends on the Children it holds now (no cached size); W-NARROW: in the functions reachable from the size methods no product of two non-constant values is computed in 32 bits or fewer and only then widened. Decides agreement of the size function with the encoder per configuration; does not decide irregular boxes, numeric loop bounds, or idempotence of encodes that mutate state."
 	wireAssumptions(r)
 	ruleWSE(c, r)
 	ruleTWRAP(c, r)
@@ -22,6 +22,9 @@ func checkC02(c *Ctx, r *Report) {
 		reportCodecPart(r, c, analyseCodec(c, sp), "size")
 	}
 	ruleSMEMBER(c, r)
+	if n := ruleTrialCleanup(c, r); n < 1 {
+		r.Undecided("O-CLEAN", "scope", "", "no trial parser (bool result, receiver fields grown with append) found; SencBox.parseAndFillSamples expected")
+	}
 	if n := ruleMakeThenAppend(c, r, func(f *ssa.Function) bool { return strings.HasPrefix(SSAFuncName(f), "mp4.") }); n < 20 {
 		r.Undecided("L-MAKEAPPEND", "scope", "", "too few make() results stored found")
 	} else {
